@@ -235,7 +235,7 @@ pub fn c16(rep: &mut Report, cfg: &Cfg) {
     let mut found_for_sig: HashSet<String> = HashSet::new();
     for port in 1..=11u8 {
         // thorough: full depth on a seed-chosen port and on port 1, depth-5 on the others
-        let d = if cfg.tier_thorough && !(port == 1 || port as u64 == 2 + cfg.seed % 10) { depth - 1 } else { depth };
+        let d = depth;
         let tot = (nops as u64).pow(d as u32);
         for code in 0..tot {
             work += 1;
@@ -329,7 +329,7 @@ pub fn c16(rep: &mut Report, cfg: &Cfg) {
         }
     }
     // ---- long random histories over all ports
-    let nhist = cfg.share(cfg.n(60, 2000));
+    let nhist = cfg.share(cfg.n(60, 12_000));
     for _ in 0..nhist {
         let mut rig = PortRig::new();
         let len = 1000;
@@ -363,7 +363,7 @@ pub fn c16(rep: &mut Report, cfg: &Cfg) {
     rep.count("port_operations", rig.ops);
     rep.count("ioport_messages_seen", rig.msgs);
     rep.sample(|| "history: ext1=00 ddr1=ff dr1=00 ddr1=00 | dr1=aa ddr1=0f ext1=55 dr1=f0 (checked after every operation: DR read-back, last announced output, time stamps)".to_string());
-    rep.notes.push("C16: per port, every history of {write DDR, write DR, set pins} x {00,FF,0F,F0,AA,55} up to the tier's depth (4 quick; 6 on two ports and 5 on the others in thorough), each replayed from an API-level reset prefix; all ordered port pairs at depth 3; random histories of length 1000 over all ports with advancing state counts. After every operation: DR read-back = (latch AND ddr) OR (pins AND NOT ddr), last announced ioport value = latch AND ddr, time stamps non-decreasing and not in the future, other ports unaffected. Cells: (port, op-kind sequence), port pairs, distinct model states (ddr, latch, pins).".into());
+    rep.notes.push("C16: per port, every history of {write DDR, write DR, set pins} x {00,FF,0F,F0,AA,55} up to the tier's depth (4 quick, 6 thorough), each replayed from an API-level reset prefix; all ordered port pairs at depth 3; random histories of length 1000 over all ports with advancing state counts. After every operation: DR read-back = (latch AND ddr) OR (pins AND NOT ddr), last announced ioport value = latch AND ddr, time stamps non-decreasing and not in the future, other ports unaffected. Cells: (port, op-kind sequence), port pairs, distinct model states (ddr, latch, pins).".into());
 }
 
 // ---------------------------------------------------------------------------------------------
@@ -692,7 +692,7 @@ pub fn c17(rep: &mut Report, cfg: &Cfg) {
     let mut rng = cfg.rng("C17");
     let mut work = 0u64;
     // ---- 1. all 256 TCR values x seeded histories
-    let per_tcr = cfg.n(3, 40);
+    let per_tcr = cfg.n(3, 200);
     for tcr in 0..256u32 {
         work += 1;
         if !cfg.mine(work) {
@@ -762,7 +762,7 @@ pub fn c17(rep: &mut Report, cfg: &Cfg) {
         }
     }
     // ---- 3. metamorphic: the same elapsed time split differently ends in the same state
-    for _ in 0..cfg.share(cfg.n(400, 20_000)) {
+    for _ in 0..cfg.share(cfg.n(400, 120_000)) {
         let tcr = (rng.u8() & 0xf8 & !0x18) | (rng.below(3) as u8 + 1) | if rng.chance(1, 2) { 0x08 } else { 0 };
         let total = 1 + rng.below(40_000) as u32;
         let (a, b) = (1 + rng.below(255) as u8, 1 + rng.below(255) as u8);
